@@ -1310,6 +1310,50 @@ theorem createCorpus_agree (cfgA : Cfg τ) (cfgB : Cfg σ) (hm : cfgA.marker = c
 
 end Agree
 
+/-! ## what is proved about `CodeCompareAgrees` (doubles against rationals)
+
+`CodeCompareAgrees fps brk d` is the hypothesis of the exact-time theorems of
+C19.  Proved here: its first clause always holds, so it IS the statement about
+the comparisons (`codeCompareAgrees_iff`); a document without a time value that
+is not an `E` time satisfies it (`codeCompareAgrees_of_no_start`).  NOT proved:
+`TimesExactSuffices` (see its docstring in `PyndlModel/Corpus.lean`). -/
+
+/-- the doubles and the rationals accept exactly the same time values (both
+    read the four fields with `parseNat`) -/
+theorem parseTime_float_rat_toBool (fps : Nat) (brkF : Float) (brk : Rat) (v : Str) :
+    (parseTime (floatArith fps brkF) v).toBool = (parseTime (ratArith fps brk) v).toBool := by
+  unfold parseTime
+  split
+  · rename_i h m sec f _
+    simp only [floatArith, ratArith]
+    cases parseNat h <;> cases parseNat m <;> cases parseNat sec <;> cases parseNat f <;> rfl
+  · rfl
+
+/-- **codeCompareAgrees_iff.** For the code's doubles against exact rationals,
+    `CompareAgrees` is exactly: for every time `a` of a tag that is not an `E`
+    tag and every time `e` of an `E` tag (or the initial 0), computed in both
+    arithmetics, `a − e > brk` comes out the same. -/
+theorem codeCompareAgrees_iff (fps : Nat) (brk : Rat) (d : Document) :
+    CodeCompareAgrees fps brk d ↔
+      ∀ a ∈ pairedTimes (floatArith fps (floatOfRat brk)) (ratArith fps brk) (fun t => !isE t) d,
+        ∀ e ∈ ((0.0 : Float), (0 : Rat)) ::
+            pairedTimes (floatArith fps (floatOfRat brk)) (ratArith fps brk) isE d,
+          decide (a.1 - e.1 > floatOfRat brk) = decide (a.2 - e.2 > brk) := by
+  unfold CodeCompareAgrees CompareAgrees
+  constructor
+  · intro h; exact h.2
+  · intro h; exact ⟨fun t _ => parseTime_float_rat_toBool fps _ brk t.value, h⟩
+
+/-- a document in which no tag other than `E` tags carries a parsable time
+    makes no comparison whose outcome matters: `CodeCompareAgrees` holds -/
+theorem codeCompareAgrees_of_no_start (fps : Nat) (brk : Rat) (d : Document)
+    (h : pairedTimes (floatArith fps (floatOfRat brk)) (ratArith fps brk) (fun t => !isE t) d = []) :
+    CodeCompareAgrees fps brk d := by
+  rw [codeCompareAgrees_iff, h]
+  intro a ha
+  cases ha
+
+
 
 /-! ## `_parse_time_string`: both branches, and the literal domain -/
 
